@@ -67,7 +67,7 @@ SHUFFLES = ['shuffle', 'bitshuffle', None]
 MARGIN = 64
 FUZZ_SCRIPT = os.path.join(env.VERIF, 'fuzz', 'c14_fuzz.py')
 
-_extra = {'atheris_executions': 0, 'atheris_campaigns': 0, 'atheris_crash_artifacts': 0, 'e2e_asdf_cases': 0, 'chunks_fed': 0, 'decompress_calls': 0, 'reused_buffer_calls': 0, 'reentrant_calls': 0}
+_extra = {'atheris_executions': 0, 'atheris_campaigns': 0, 'atheris_crash_artifacts': 0, 'e2e_asdf_cases': 0, 'chunks_fed': 0, 'decompress_calls': 0, 'reused_buffer_calls': 0, 'reentrant_calls': 0, 'typed_out_calls': 0}
 _last = {'key': None, 'nt': False, 'classes': []}
 
 
@@ -277,6 +277,19 @@ def _decompress_once(comp, chunks_objs, payload_bytes, slack, tail_margin, label
     pay = np.frombuffer(payload_bytes, dtype=np.uint8)
     buf[MARGIN : MARGIN + nb] = ~pay  # every payload byte must be written by the code under test
     out = memoryview(buf)[MARGIN : MARGIN + nb + slack]
+    # the interface takes any contiguous memoryview: besides the flat byte view asdf passes, a typed view (float32 / int64 items)
+    # or a 2-D (n, 9) byte view of the same memory, chosen deterministically from the sizes
+    tot_out = nb + slack
+    pick = (nb + 3 * slack + len(label)) % 4
+    if pick == 1 and tot_out and tot_out % 4 == 0:
+        out = out.cast('f')
+        _extra['typed_out_calls'] += 1
+    elif pick == 2 and tot_out and tot_out % 8 == 0:
+        out = out.cast('q')
+        _extra['typed_out_calls'] += 1
+    elif pick == 3 and tot_out and tot_out % 9 == 0:
+        out = out.cast('B', shape=(tot_out // 9, 9))
+        _extra['typed_out_calls'] += 1
     _extra['decompress_calls'] += 1
     ret = call_repo(comp.decompress, iter(chunks_objs), out, _sig='blsc-decompress-raised')
     if not (np.array_equal(buf[:MARGIN], pat[:MARGIN]) and np.array_equal(buf[MARGIN + nb :], pat[MARGIN + nb :])):
